@@ -141,7 +141,7 @@ struct GridChain {
       int hx_ = rnd(0, 7), hy_ = rnd(0, 7); std::string dx, dy;
       Grid x2 = grid_twin(x_t, hx_, dx), y2 = grid_twin(y_t, hy_, dy);
       Lattice a, b; checked(2);
-      if (!obs_grid(x2, a) || !obs_grid(y2, b) || !ref::same(a, LX) || !ref::same(b, LY)) { hx::inconclusive("twin_build_mismatch.Grid"); if (hx::opt().verbose) fprintf(stderr, "twin mismatch: x:%s %s -> %s ; y:%s %s -> %s\n", dx.c_str(), show(LX).c_str(), show(a).c_str(), dy.c_str(), show(LY).c_str(), show(b).c_str()); }
+      if (!obs_grid(x2, a) || !obs_grid(y2, b) || !ref::same(a, LX) || !ref::same(b, LY)) { hx::inconclusive("twin_build_mismatch.Grid"); }
       else {
         std::string s2x = status_of(x2), s2y = status_of(y2);
         tr(" | x'=twin(x:" + dx + "); y'=twin(y:" + dy + "); x'." + op.name + "(y')");
